@@ -103,7 +103,7 @@ theorem liveOKn_of_notLive (o : Option NView) (x : Event) (h : Flow.NotLive x) :
 theorem trace_live_of_notLive (l : String) : ∀ (ev : List Event) (v : WView),
     (∀ x ∈ ev, Flow.NotLive x) → Trace LiveOKn l v ev
   | [], _, _ => trivial
-  | x :: xs, v, h => ⟨Or.inr (liveOKn_of_notLive _ x (h x (List.mem_cons_self ..))),
+  | x :: xs, _, h => ⟨Or.inr (liveOKn_of_notLive _ x (h x (List.mem_cons_self ..))),
       trace_live_of_notLive l xs _ (fun y hy => h y (List.mem_cons_of_mem _ hy))⟩
 
 /-- the fold does not flag `a` as left -/
